@@ -570,6 +570,17 @@ var declPositions = []struct {
 	{"dshort2", nil, func(T, K string) string { return "u := true; x := " + shortLit(T, K) + "; if u { return x }; return x" }, true},
 	{"dshort3", nil, func(T, K string) string { return "w, x, y := true, " + shortLit(T, K) + ", " + shortLit(T, K) + "; if w { return x }; return y" }, true},
 	{"dshortloop", nil, func(T, K string) string { return "for i := 0; i < 1; i++ { x := " + shortLit(T, K) + "; return x }; return 0" }, true},
+	// the constant next to typed values of the same list (GA, GB are package variables of type T): every element converts
+	{"dslicelit2", nil, func(T, K string) string { return "v := []" + T + "{" + K + ", GA}; return v[0]" }, false},
+	{"dslicelit3", nil, func(T, K string) string { return "v := []" + T + "{GA, " + K + ", GB}; return v[1]" }, false},
+	{"dappend2", nil, func(T, K string) string { return "var v []" + T + "; v = append(v, " + K + ", GA); return v[0]" }, false},
+	{"dappend3", nil, func(T, K string) string { return "v := []" + T + "{GA}; v = append(v, GB, " + K + ", GA); return v[2]" }, false},
+	{"dvariadic2", nil, func(T, K string) string { return "return first(" + K + ", GA)" }, false},
+	{"dvariadic3", nil, func(T, K string) string { return "return second(GA, " + K + ", GB)" }, false},
+	{"dmaplit2", nil, func(T, K string) string { return "m := map[string]" + T + "{\"k\": " + K + ", \"j\": GA}; return m[\"k\"]" }, false},
+	{"dmulti2", nil, func(T, K string) string { return "var x, y " + T + " = " + K + ", GA; _ = y; return x" }, false},
+	{"dresult2", func(T, K string) string { return "func res2_NAME() (" + T + ", " + T + ") { return " + K + ", GA }" }, func(T, K string) string { return "x, _ := res2_NAME(); return x" }, false},
+	{"dassign2", nil, func(T, K string) string { return "x, y := GA, GB; x, y = " + K + ", x; _ = y; return x" }, false},
 	{"dvar", nil, func(T, K string) string { return "var x " + T + " = " + K + "; return x" }, false},
 	{"dconv", nil, func(T, K string) string { return "x := " + T + "(" + K + "); return x" }, false},
 	{"dassign", nil, func(T, K string) string { return "var x " + T + "; x = " + K + "; return x" }, false},
@@ -605,7 +616,7 @@ const headerEnd = "// end of header\n"
 // another type on the operand stack where the callee's own locals will live.
 func header(T string) string {
 	var sb strings.Builder
-	sb.WriteString("type S struct { F " + T + " }\nvar GA " + T + "\nvar GB " + T + "\nfunc ident(a " + T + ") " + T + " { return a }\nfunc first(a ..." + T + ") " + T + " { return a[0] }\n")
+	sb.WriteString("type S struct { F " + T + " }\nvar GA " + T + "\nvar GB " + T + "\nfunc ident(a " + T + ") " + T + " { return a }\nfunc first(a ..." + T + ") " + T + " { return a[0] }\nfunc second(a ..." + T + ") " + T + " { return a[1] }\n")
 	sb.WriteString("func pol0() { var a float64 = 1.5; b := 2.5; var c float64; d := a + b + c; e := 0.5; f := d * e; g := f; h := g; h = h }\n")
 	sb.WriteString("func pol1() { var a int8 = 100; var b int8 = 3; c := a - b; d := c; e := d; f := e; g := f; h := g; h = h }\n")
 	sb.WriteString("func pol2() { var a uint8 = 200; var b uint8 = 3; c := a - b; d := c; e := d; f := e; g := f; h := g; h = h }\n")
